@@ -29,7 +29,7 @@ EXPLANATION = (
     "binding on every path.  R02.4 (=R01.1): the enclosing-scope lookup chain skips class scopes.  R02.5 (=R15.7): target-name "
     "collectors never bind the object name of an attribute/subscript target.  R02.6: in every filter list, rejecting-only "
     "filters precede accepting ones (the first non-None verdict decides).  R02.7 (=R01.7): merged name tables give the winner the language "
-    "prescribes.  R02.8 (=R01.8): absolute module names are searched on the path before the importer's own folder.  That each candidate evaluates to "
+    "prescribes.  R02.8 (=R01.8): absolute module names are searched on the path before the importer's own folder.  R02.9: the definition-header keyword table covers def, async def and class.  That each candidate evaluates to "
     "the right binding is otherwise not decided."
 )
 ASSUMPTIONS = ["re alternation is ordered (leftmost position, first alternative wins)",
@@ -79,6 +79,7 @@ def check(ctx, res) -> None:
 
     merge_precedence_rule(ctx, res, "R02.7")
     module_search_order_rule(ctx, res, "R02.8")
+    _header_keyword_rule(ctx, res)
 
 
 def _check_main(ctx, res) -> None:
@@ -343,3 +344,32 @@ def _group_sources(pat: str) -> Dict[str, str]:
             name = alt[4:alt.index(">")]
             res[name] = alt[alt.index(">") + 1:-1]
     return res
+
+
+def _header_keyword_rule(ctx, res, rule: str = "R02.9") -> None:
+    """R02.9: a name directly after a definition keyword is a definition header.  The grammar has three constructors that
+    bind an identifier in their header (FunctionDef, AsyncFunctionDef, ClassDef); the word finder's keyword table must
+    contain the keyword text of each of them that exists in the running interpreter's grammar."""
+    from ..grammar import G
+
+    idx = ctx.idx
+    f = idx.need_func("rope.base.worder._RealFinder.is_a_class_or_function_name_in_header")
+    KEYWORD = {"FunctionDef": "def", "AsyncFunctionDef": "async def", "ClassDef": "class"}
+    table = set()
+    for x in ast.walk(f.node):
+        if isinstance(x, ast.Compare) and len(x.ops) == 1 and isinstance(x.ops[0], ast.In) and isinstance(x.comparators[0], (ast.List, ast.Tuple, ast.Set)):
+            table |= {e.value for e in x.comparators[0].elts if isinstance(e, ast.Constant) and isinstance(e.value, str)}
+        if isinstance(x, ast.Compare) and len(x.ops) == 1 and isinstance(x.ops[0], ast.Eq) and isinstance(x.comparators[0], ast.Constant) \
+                and isinstance(x.comparators[0].value, str):
+            table.add(x.comparators[0].value)
+    if not table:
+        raise AnalysisError("anchor=is_a_class_or_function_name_in_header: keyword table not found")
+    for ctor, kw in sorted(KEYWORD.items()):
+        if ctor not in G.ctors:
+            continue
+        ok = kw in table
+        res.add(rule, f"header-keyword:{ctor}", ok, f.where,
+                f"'{kw}' is a definition-header keyword of the word finder" if ok else
+                f"the word finder does not treat the name after '{kw}' as a definition header (table {sorted(table)}): starting rename or "
+                f"find-occurrences on the name in a `{kw} name(...)` header of a method resolves nothing, so the definition and its references "
+                "are not the same occurrence set", function=f.qualname)
